@@ -67,6 +67,14 @@ theorem preloading_changes_no_glyph_or_box (gloc glat : List Nat) (ngg : Nat) (g
       ∃ bs, Loader.preloadBoxes T gloc glat (max ngg T.numGlyphsAttr) 0 = .ok (some bs)) :
     Loader.glyphCache gloc glat ngg false gids = .ok (some cp) := Loader.glyphCache_preload_eq_lazy gloc glat ngg gids cp hp hwf
 
+/-- **… on any font**: the hypothesis follows from the glyphs having been read – a glyph `read_glyph` accepted in a version 3 `Glat` has a
+box `read_box` accepts (`readBox_of_readGlyph`), and `maxp` never names more glyphs than `Gloc` has attributes for.  So whenever the preloading
+constructor builds a cache at all, the cache that loads on demand gives the same answers; and the constructor's error path for an unreadable
+box (`free(boxes)` with the cells of `_boxes` already pointing into the block) is unreachable. -/
+theorem preloading_changes_no_glyph_or_box_on_any_font (gloc glat : List Nat) (ngg : Nat) (gids : List Nat) (cp : Loader.GlyphCacheM)
+    (hp : Loader.glyphCache gloc glat ngg true gids = .ok (some cp)) : Loader.glyphCache gloc glat ngg false gids = .ok (some cp) :=
+  Loader.glyphCache_preload_eq_lazy' gloc glat ngg gids cp hp
+
 /-- `gr_face_cacheCmap` changes how a code point is looked up, never the glyph: on a cmap with sorted, disjoint ranges the face made with the
 option (cache built at creation) and the face made without it (table searched on every request) map every Unicode code point to the
 same glyph -/
